@@ -178,3 +178,85 @@ func zzC07_locked() {
 	zzBytesEq(rw.got, all, "messages reach the transport whole, in order, un-interleaved")
 	vReach("C07_locked")
 }
+
+// zzStallConn is a transport that stalls (yields to the scheduler) in the middle of every write.
+type zzStallConn struct {
+	zzLockedConn
+}
+
+func (c *zzStallConn) Write(p []byte) (int, error) {
+	c.writes++
+	h := len(p) / 2
+	c.got = append(c.got, p[:h]...)
+	vYield()
+	c.got = append(c.got, p[h:]...)
+	return len(p), nil
+}
+
+// zzC07_concurrent: W writer goroutines x 2 messages each on one connection, transport stalling in
+// mid-write, sync.Pool in LIFO mode; schedules explored up to the preemption bound. The recorded stream
+// must parse into the messages written, each exactly once, each writer's messages in its own order.
+func zzC07_concurrent() {
+	d := vAbstractDict()
+	zzKnownCommand(d, 0, 257)
+	da, derr := d.FindAVPWithVendor(0, uint32(1), 0)
+	vAssume(derr == nil && da.Data.Type == datatype.OctetStringType)
+	rw := &zzStallConn{}
+	srv := &Server{Dict: d}
+	c, err := srv.newConn(rw)
+	vAssume(err == nil)
+	nw := vParam("W", 2)
+	finished := 0
+	for w := 0; w < nw; w++ {
+		w := w
+		// different sizes per writer, so that a serialisation buffer handed back too early and reused
+		// by the other writer shows up as corrupted bytes
+		go func() {
+			for k := 0; k < 2; k++ {
+				m := NewMessage(257, 0x80, 0, uint32(100*(w+1)+k), 1, d)
+				m.NewAVP(uint32(1), 0, 0, datatypeOctets(4+8*w, byte(16*(w+1)+k)))
+				m.WriteTo(c.writer)
+			}
+			finished++
+		}()
+	}
+	vQuiesce()
+	vAssert(finished == nw, "all writers finish")
+	// parse the recorded stream
+	r := zzNewReader(rw.got)
+	seen := map[uint32]int{}
+	lastOf := make([]int, nw)
+	for i := 0; i < 2*nw; i++ {
+		m, rerr := ReadMessage(r, d)
+		vAssert(rerr == nil && m != nil, "the transport received whole, un-interleaved messages")
+		if rerr != nil {
+			return
+		}
+		id := m.Header.HopByHopID
+		seen[id]++
+		w, k := int(id/100)-1, int(id%100)
+		vAssert(w >= 0 && w < nw && k < 2, "a message that was written")
+		if w >= 0 && w < nw {
+			vAssert(k >= lastOf[w], "each writer's messages appear in the order it wrote them")
+			lastOf[w] = k
+			pl := m.AVP[0].Data.Serialize()
+			vAssert(len(pl) == 4+8*w, "payload size intact")
+			for _, x := range pl {
+				vAssert(x == byte(16*(w+1)+k), "payload bytes intact")
+			}
+		}
+	}
+	for _, n := range seen {
+		vAssert(n == 1, "each message reaches the transport exactly once")
+	}
+	vAssert(r.off == len(rw.got), "nothing else was sent")
+	vReach("C07_concurrent")
+}
+
+func datatypeOctets(n int, fill byte) datatype.OctetString {
+	b := make([]byte, n)
+	for i := range b {
+		b[i] = fill
+	}
+	return datatype.OctetString(b)
+}
